@@ -46,6 +46,7 @@ DenText1(s, v) ==
       [] s = "y"       -> v.y
       [] s = "a"       -> v.a
       [] s = "2"       -> 2
+      [] s = "3"       -> 3      \* a second, different number: two numeric terms in one equation
       \* pure numbers with more significant digits than a '%g' keeps
       [] s = "1234567" -> 1234567
       [] s = "12345678" -> 12345678
